@@ -226,6 +226,9 @@ ASPECTS = [f'name:{k}' for k in KINDS] + ['set-identifier', 'header-id', 'ident:
 SHAPES = ['RPM\n', '\nRPM', 'RPM ', ' RPM', 'R.PM', 'rpm', 'RPM\r', 'R\tPM', 'RPM\n\n', 'R/PM', 'RPM\x00']
 SHAPED = ['name:channel', 'name:zone', 'set-identifier', 'header-id', 'ident:axis_id', 'ident:label']
 ASPECTS += [f'{a}|{i}' for a in SHAPED for i in range(len(SHAPES))]
+# values spelled like the NAME of a member of the enumeration (not one of its values)
+ASPECTS += ['unit:channel@METER', 'unit:attr@METER', 'index-type@BOREHOLE_DEPTH', 'eq-type@TOOL', 'eq-location@WELL',
+            'unit:channel@Meter', 'index-type@borehole-depth']
 # 'inside-after-outside-use': the same inputs were first used outside the mode in this process (accepted there)
 WHERE = ['inside', 'inside-after-outside-use', 'nested', 'outside', 'after-exception']
 # the object is created in one mode and the breaching value is assigned (through the public setters) in the other
@@ -279,6 +282,9 @@ def breach_spec(aspect):
     sp = conforming_spec(two_origins=(aspect == 'none-no-fsn'), fsn=(aspect != 'none-no-fsn'))
     ops = sp['ops']
     bad = 'Lower case'
+    alt = None
+    if '@' in aspect:
+        aspect, alt = aspect.split('@')
     if '|' in aspect:
         aspect, i = aspect.split('|')
         bad = SHAPES[int(i)]
@@ -338,15 +344,15 @@ def breach_spec(aspect):
         elif aspect.endswith('+index-min-max'):
             ops[4]['kw'].update(index_min=1.0, index_max=10.0)
     elif aspect == 'unit:channel':
-        ops[2]['kw']['units'] = 'furlong'
+        ops[2]['kw']['units'] = alt or 'furlong'
     elif aspect == 'unit:attr':
-        ops.append(S.op_add('axis', 'X', 'AXIS', spacing={'$as': {'value': 1.0, 'units': 'my-unit'}}))
+        ops.append(S.op_add('axis', 'X', 'AXIS', spacing={'$as': {'value': 1.0, 'units': alt or 'my-unit'}}))
     elif aspect == 'index-type':
-        ops[4]['kw']['index_type'] = 'MY-INDEX'
+        ops[4]['kw']['index_type'] = alt or 'MY-INDEX'
     elif aspect == 'eq-type':
-        ops.append(S.op_add('equipment', 'X', 'EQUIPMENT', eq_type='Custom-Type'))
+        ops.append(S.op_add('equipment', 'X', 'EQUIPMENT', eq_type=alt or 'Custom-Type'))
     elif aspect == 'eq-location':
-        ops.append(S.op_add('equipment', 'X', 'EQUIPMENT', location='Somewhere'))
+        ops.append(S.op_add('equipment', 'X', 'EQUIPMENT', location=alt or 'Somewhere'))
     return sp
 
 
